@@ -226,10 +226,19 @@ def StageReference(dataReference,  # type: experiment.model.graph.DataReference
                 #(due to charactwise matching performed)
                 target = os.path.join(os.path.realpath(dest), '')
                 for f in tar.getmembers():
-                    newPath = os.path.join(location.path, f.name)
+                    # VV: normalize the path so that `..` segments (or links already on the disk) cannot
+                    # trick the check, also append / so that a member which is the root directory itself matches
+                    newPath = os.path.join(os.path.realpath(os.path.join(target, f.name)), '')
                     #if target includes / then commonprefix will include it
                     if os.path.commonprefix([target, newPath]) != target:
                         raise tarfile.ReadError('Archive contains files that would be extracted outside of destination')
+                    if f.issym() or f.islnk():
+                        # VV: symbolic links are relative to the directory of the member, hard links to the root
+                        # of the archive. Refuse links that point outside the destination.
+                        linkRoot = os.path.dirname(newPath.rstrip(os.path.sep)) if f.issym() else target
+                        linkPath = os.path.join(os.path.realpath(os.path.join(linkRoot, f.linkname)), '')
+                        if os.path.commonprefix([target, linkPath]) != target:
+                            raise tarfile.ReadError('Archive contains links that point outside of destination')
 
                 tar.extractall(dest)
                 tar.close()
